@@ -1,5 +1,6 @@
 (** Pins/C17.v — the statements of the C17 theorems, pinned. *)
 From PdfV Require Import Base.Prelude Gen.Generated XRef.Model XRef.Spec XRef.HeaderProofs XRef.FrontProofs Properties.C17.
+Set Warnings "-notation-overridden".   (* also ends the import list for the dependency scanner of tools/vplib *)
 
 Check C17_marker_first_occurrence : forall pat p s, pat <> [] -> no_border pat = true ->
   find_sub pat p = None -> starts_with pat s = true -> find_sub pat (p ++ s) = Some (lenN p).
